@@ -476,6 +476,54 @@ def gen_script(rng, max_ops, profile):
             lines += [live_cmd, stale_cmd] if rng.chance(1, 2) else [stale_cmd, live_cmd]
             lines.append('unlock')
             st.comps[b] = closure(set(st.comps[b]) | {p_})
+        elif choice == 'jobdo':
+            # a job whose callback creates / edits / destroys entities while it runs (deferred: the manager is locked during a run);
+            # the job has no version filter, so it runs iff some entity has its required components
+            if depth or not njobs:
+                continue
+            unf = [j for j, js in enumerate(profile.get('jobs', [])) if not js.get('check')]
+            if not unf:
+                continue
+            j = rng.pick(unf)
+            need = set(p_ for p_, fl in profile['jobs'][j]['reqs'] if p_ in pals and not (fl & 2))
+            if not any(need <= set(st.comps.get(h, ())) for h in live_handles()):
+                continue        # the run would visit nothing: the callback never runs
+            acts = []
+            for _ in range(rng.range(1, 3)):
+                kind = rng.pick(['create', 'createarch', 'assignid', 'destroynow', 'removeid'])
+                hs_ = [h for h in live_handles() if h not in st.marked and not st.shared.get(h)]
+                if kind in ('create', 'createarch'):
+                    cs = sorted(set(rng.pick(pals) for _ in range(rng.range(1, 2))))
+                    acts.append('jobdo %s 0 %s' % (kind, ' '.join(map(str, cs))))
+                    new_h = st.n
+                    st.comps[new_h] = closure(cs); st.shared[new_h] = set(); st.n += 1
+                    cand = [p_ for p_ in pals if p_ not in st.comps[new_h]]
+                    if cand and rng.chance(1, 2) and not deps:
+                        p_ = rng.pick(cand)
+                        acts.append('jobdo assignid 0 #%d %d %s' % (new_h, p_, '-' if rng.chance(1, 3) else str(value())))
+                        st.comps[new_h] = closure(set(st.comps[new_h]) | {p_})
+                elif kind == 'assignid' and hs_:
+                    h = rng.pick(hs_)
+                    cand = [p_ for p_ in pals if p_ not in st.comps[h]]
+                    if cand and not any(a.split()[3:4] == ['#%d' % h] for a in acts):
+                        p_ = rng.pick(cand)
+                        acts.append('jobdo assignid 0 #%d %d %s' % (h, p_, '-' if rng.chance(1, 3) else str(value())))
+                        st.comps[h] = closure(set(st.comps[h]) | {p_})
+                elif kind == 'destroynow' and hs_:
+                    h = rng.pick(hs_)
+                    if not any(('#%d' % h) in a.split() for a in acts):
+                        acts.append('jobdo destroynow 0 #%d' % h)
+                        st.comps.pop(h, None)
+                elif kind == 'removeid' and hs_ and not deps:
+                    h = rng.pick(hs_)
+                    cs_ = sorted(st.comps[h])
+                    if cs_ and not any(('#%d' % h) in a.split() for a in acts):
+                        p_ = rng.pick(cs_)
+                        acts.append('jobdo removeid 0 #%d %d' % (h, p_))
+                        st.comps[h] = set(st.comps[h]) - {p_}
+            if acts:
+                lines.extend(acts)
+                lines.append('runjob %d 0' % j)
         elif choice == 'runtyped':
             # the typed jobs of the driver (PerEntityJob<T>): their arguments are palette types 0, 1, 2, 4
             if depth == 0 and all(p_ in pals for p_ in (0, 1, 2, 4)):
@@ -630,7 +678,7 @@ def profile(name):
             p['jobs'] = [{'reqs': [(0, 1)], 'check': []}, {'reqs': [(0, 0), (1, 3)], 'check': []}, {'reqs': [(0, 1), (2, 1)], 'check': []},
                          {'reqs': [(0, 1)], 'check': [0]}, {'reqs': [(1, 0), (0, 2)], 'check': [1]}]
         p['weights'] = {'create': 26, 'destroynow': 9, 'destroy': 3, 'assign': 8, 'remove': 6, 'set': 12, 'get': 6,
-                        'clone': 2, 'update': 6, 'cleararch': 1, 'lock': 0, 'unlock': 0, 'runjob': 22, 'burst': 0 if name == 'C04' else 7, 'bulk': 0 if name == 'C04' else 2, 'sparse': 3, 'runtyped': 8}
+                        'clone': 2, 'update': 6, 'cleararch': 1, 'lock': 0, 'unlock': 0, 'runjob': 22, 'burst': 0 if name == 'C04' else 7, 'bulk': 0 if name == 'C04' else 2, 'sparse': 3, 'runtyped': 8, 'jobdo': 4}
     elif name == 'C13':
         p['deps'] = 100
         p['pals'] = [0, 1, 2, 3, 5, 8, 9]
